@@ -325,6 +325,10 @@ class ModelCacheMixin:
         else:
             constraints = extra_constraints
 
+        # only mark an AST as eval-exhausted if e.variables is a subset of variables that the current solver
+        # knows about (from its constraints) while solving: models are only cached for those variables
+        cacheable = [e for e in asts if self.variables.issuperset(e.variables)]
+
         try:
             results.update(super().batch_eval(asts, remaining, extra_constraints=constraints, exact=exact))
         except UnsatError:
@@ -332,11 +336,8 @@ class ModelCacheMixin:
                 raise
 
         if len(extra_constraints) == 0 and len(results) < n:
-            for e in asts:
-                # only mark an AST as eval-exhausted if e.variables is a subset of variables that the current solver
-                # knows about (from its constraints)
-                if self.variables.issuperset(e.variables):
-                    self._eval_exhausted[e.hash()] = e
+            for e in cacheable:
+                self._eval_exhausted[e.hash()] = e
 
         return results
 
